@@ -18,6 +18,9 @@
      {ev:"CaseBegin", ...}                        announcement of a guard-page call (no effect)
      {ev:"Fault", fn, mode, k, tail}              the call faulted on a memory access
      {ev:"Panic", fn, mode, k, tail}              the call panicked otherwise
+     {ev:"Race", fn, detail}                      `go test -race` reported a data race whose stack is in Search
+   "conc" mode: calls made by several goroutines at the same time, each on its own private arrays
+   (one trace per goroutine and array); they are judged exactly like sequential calls.
 
    Classification of a rejected Search/Fault (the `why` is what known_findings.json signatures are
    matched against): when len(xs) is not a positive multiple of 8, no key of xs is >= k, and the
@@ -111,6 +114,9 @@ Step(e) ==
                                           ELSE "memory fault in " \o e.fn)
          /\ drift' = drift \cup Flag(e.fn = "Search" /\ model.fault, "fault not predicted by the design model of the kernel")
          /\ UNCHANGED <<tid, n, xs, asc, curK, curRes>>
+    [] e.ev = "Race" ->      \* the race detector reported a data race inside Search (appended by the check)
+         /\ bad' = bad \cup Flag(FALSE, "Search is not a pure function of xs: data race")
+         /\ UNCHANGED <<tid, n, xs, asc, curK, curRes, drift>>
     [] e.ev = "Panic" ->
          /\ bad' = bad \cup Flag(FALSE, "panic in " \o e.fn)
          /\ UNCHANGED <<tid, n, xs, asc, curK, curRes, drift>>
